@@ -466,3 +466,50 @@ def first_diff(a, b, path="$"):
                 return d
         return None
     return None if a == b else f"{path}: {a!r} != {b!r}"
+
+
+# ----------------------------------------------------------------------------- in-place AST edits (histories)
+def inplace_edit_ast(ast_obj, ast_spec, r, names, ops=("AND", "OR", "IMPLIES")):
+    """Edit the live expression tree IN PLACE - node attributes are assigned directly, neither the AST object nor
+    the Constraint.ast setter is involved - and return the spec of the edited tree (None if not applicable).
+    Kinds: change the operator of a binary node, rename a leaf (node.data), replace an operand (node.right/left)."""
+    from flamapy.core.models.ast import Node, ASTOperation as Op
+    if not isinstance(ast_spec, list):
+        return None
+    new = jast(ast_spec)
+    # collect (live node, spec node) pairs for operator nodes, top-down
+    pairs = []
+    stack = [(ast_obj.root, new)]
+    while stack:
+        n, s = stack.pop()
+        if isinstance(s, list):
+            pairs.append((n, s))
+            kids = [n.left, n.right]
+            for k, sub in zip(kids, s[1:]):
+                if isinstance(sub, list):
+                    stack.append((k, sub))
+    n, s = r.choice(pairs)
+    kind = r.choice(["operator", "leaf", "operand"])
+    if kind == "operator" and s[0] in LOGICAL and s[0] != "NOT":
+        cands = [o for o in ops if o != s[0]]
+        newop = r.choice(cands)
+        n.data = Op[newop]
+        s[0] = newop
+        return new
+    # a leaf below this node
+    idx = [i for i in (1, 2) if i < len(s) and not isinstance(s[i], list)]
+    if kind == "leaf" and idx:
+        i = r.choice(idx)
+        other = r.choice([x for x in names if x != s[i]] or names)
+        (n.left if i == 1 else n.right).data = other
+        s[i] = other
+        return new
+    i = 2 if len(s) > 2 else 1
+    other = r.choice(names)
+    repl = ["NOT", other] if r.random() < 0.5 else other
+    if i == 2:
+        n.right = build_ast(repl)
+    else:
+        n.left = build_ast(repl)
+    s[i] = repl
+    return new
